@@ -76,15 +76,48 @@ class VPath:
     def mkdir(self, *a, **k):
         self.fs.dirs.add(self.path)
 
-    def glob(self, pattern):
-        if pattern != "*":
-            raise A.Undecided("glob pattern")
+    def iterdir(self):
         pre = self.path + "/"
         kids = set()
         for p in list(self.fs.files) + list(self.fs.dirs):
             if p.startswith(pre):
                 kids.add(pre + p[len(pre):].split("/", 1)[0])
         return [VPath(self.fs, k) for k in sorted(kids)]
+
+    def glob(self, pattern):
+        import fnmatch
+
+        if not isinstance(pattern, str) or "/" in pattern or "**" in pattern:
+            raise A.Undecided("glob pattern over several directory levels")
+        return [k for k in self.iterdir() if fnmatch.fnmatchcase(k.name, pattern)]
+
+    @property
+    def parent(self):
+        return VPath(self.fs, self.path.rsplit("/", 1)[0] or "/")
+
+    def with_suffix(self, suffix):
+        return VPath(self.fs, self.path[: len(self.path) - len(self.suffix)] + suffix)
+
+    def with_name(self, name):
+        return self.parent / name
+
+    def is_file(self):
+        return self.path in self.fs.files
+
+    def is_dir(self):
+        return self.path in self.fs.dirs or any(p.startswith(self.path + "/") for p in self.fs.files)
+
+    def __fspath__(self):
+        return self.path
+
+    def __eq__(self, other):
+        return isinstance(other, VPath) and other.path == self.path
+
+    def __hash__(self):
+        return hash(self.path)
+
+    def __lt__(self, other):
+        return self.path < other.path
 
     def exists(self):
         return self.path in self.fs.files or self.path in self.fs.dirs
@@ -475,10 +508,14 @@ def specs(tier):
     mixes = [(["F2_charm", "FL_total"], "NC", "electron"), (["XSHERANC", "F2_total"], "NC", "positron"), (["XSCHORUSCC_charm", "F3_light"], "CC", "neutrino"),
              (["g1_light"], "NC", "electron"),
              # cross-section kinds whose names do not start with "XS" (they carry y as well)
-             (["F1_total", "g5_total"], "NC", "electron"), (["FW_total", "F2_light"], "CC", "neutrino")]
+             (["F1_total", "g5_total"], "NC", "electron"), (["FW_total", "F2_light"], "CC", "neutrino"),
+             # every flavour spelling occurs with points (names are keys of files and documents: suffix / prefix handling must be exact)
+             (["F2_top", "FL_bottom", "XSHERANC_top"], "NC", "electron")]
     for (obs, process, projectile), (fns, nfff), pto, sv, fmt, (empty, none_) in itertools.product(
         mixes, [("ZM-VFNS", 4), ("FFNS", 3)], [0, 2], [False, True], ["yaml", "tar"], [(False, False), (True, False), (False, True), (True, True)]
     ):
+        if obs[0] == "F2_top" and (empty or none_ or sv):
+            continue  # the empty / None slots of the other mixes use these very names
         if tier == "quick":
             if sv and not (pto == 2 and obs[0] in ("F2_charm", "XSHERANC")):
                 continue
